@@ -688,6 +688,18 @@ impl SetupFrame {
     }
 }
 
+impl SetupFrame {
+    /// ... or: the ids of the request being handled
+    fn enter_ids(w: &Arc<World>, trace: u128, span: u64) -> Self {
+        let ctxt = w.rt.ctxt().clone();
+        let t = emit::TraceId::from_u128(trace).unwrap();
+        let s = emit::SpanId::from_u64(span).unwrap();
+        let mut frame = ctxt.open_push([("trace_id", emit::Value::from_any(&t)), ("span_id", emit::Value::from_any(&s))]);
+        ctxt.enter(&mut frame);
+        SetupFrame { ctxt, frame: Some(frame) }
+    }
+}
+
 impl Drop for SetupFrame {
     fn drop(&mut self) {
         if let Some(mut frame) = self.frame.take() {
@@ -699,6 +711,11 @@ impl Drop for SetupFrame {
 
 #[emit::span(rt: &w.rt, setup: || SetupFrame::enter(w, sid), "span {sid}", sid)]
 fn span_setup_fn(w: &Arc<World>, st: &mut Strand, sid: u32, enabled: bool, body: &Arc<Vec<S>>, exit: Exit) {
+    body_sync(w, st, sid, enabled, body, exit)
+}
+
+#[emit::span(rt: &w.rt, setup: || SetupFrame::enter_ids(w, trace, span), "span {sid}", sid)]
+fn span_setup_ids_fn(w: &Arc<World>, st: &mut Strand, sid: u32, trace: u128, span: u64, enabled: bool, body: &Arc<Vec<S>>, exit: Exit) {
     body_sync(w, st, sid, enabled, body, exit)
 }
 
@@ -961,10 +978,30 @@ fn run_span_sync(w: &Arc<World>, st: &mut Strand, n: &S) {
     let filter_ok = *sampled;
     let enabled = model_enabled(st, w, *sampled, filter_ok);
     NEXT_SAMPLE.with(|c| c.set(*sampled));
+    // a `setup:` hook that puts a request's incoming ids into the ambient context (plain runtime): the hook runs before
+    // the span is created, so the span continues that trace - for the model an incoming frame around the span
+    let setup_ids: Option<Incoming> = if !TP && form == Form::SetupFn && sid % 2 == 0 && !st.in_trace() {
+        Some(Incoming::Ids {
+            trace: 0xabc5_0000_0000_0000_0000_0000_0000_0000u128 + sid as u128,
+            span: 0xdef5_0000_0000_0000u64 + sid as u64,
+            repr: 0,
+            part: 0,
+        })
+    } else {
+        None
+    };
+    if let Some(inc) = &setup_ids {
+        push_incoming_model(st, inc);
+        w.probe("setup_hook_places_incoming_ids");
+    }
     let ix = new_span_info(w, st, sid, form, exit, enabled, *sampled);
     w.mark("begin", sid);
     let saved = st.clone();
     let r = panic::catch_unwind(AssertUnwindSafe(|| match form {
+        Form::SetupFn if setup_ids.is_some() => {
+            let Some(Incoming::Ids { trace, span, .. }) = &setup_ids else { unreachable!() };
+            span_setup_ids_fn(w, st, sid, *trace, *span, enabled, body, exit)
+        }
         Form::SyncFn | Form::AsyncFn => span_sync_fn(w, st, sid, enabled, body, exit),
         Form::NewSpanSync | Form::NewSpanAsync => {
             let (mut guard, frame) = emit::new_span!(rt: &w.rt, "span {sid}", sid);
@@ -1110,6 +1147,10 @@ fn run_span_sync(w: &Arc<World>, st: &mut Strand, n: &S) {
     if r.is_err() {
         let msg = crate::core::take_last_panic().unwrap_or_default();
         *st = saved;
+        if let Some(inc) = &setup_ids {
+            // the hook's frame was taken down by the unwinding
+            pop_incoming_model(st, inc);
+        }
         if !msg.contains("<injected:") {
             lg(&w.log).violations.push((if TP { "C18" } else { "C05" }, "unexpected_panic", format!("span {sid} panicked: {msg}")));
         }
@@ -1132,6 +1173,9 @@ fn run_span_sync(w: &Arc<World>, st: &mut Strand, n: &S) {
         // re-raise: the panic belongs to the enclosing program (a Catch node or the task boundary)
         observe(w, st, "after span unwound by panic");
         panic::panic_any(Injected("span_body_rethrow"));
+    }
+    if let Some(inc) = &setup_ids {
+        pop_incoming_model(st, inc);
     }
     observe(w, st, "after span ended");
 }
@@ -1626,7 +1670,7 @@ pub fn gen_nodes(ch: &mut Choices, cfg: &GenCfg, depth: u32, budget: &mut u32, n
                 } else if is_async {
                     *ch.pick(&[Form::AsyncFn, Form::AsyncFn, Form::NewSpanAsync, Form::SyncFn, Form::NewSpanSync, Form::ResultFn, if TP { Form::SyncFn } else { Form::WhenFn }, Form::WarnFn, Form::ExplicitIdFn])
                 } else {
-                    *ch.pick(&[Form::SyncFn, Form::SyncFn, Form::NewSpanSync, Form::ResultFn, Form::GuardFn, if TP { Form::SyncFn } else { Form::WhenFn }, Form::NewInfoSpanSync, Form::ExplicitIdFn])
+                    *ch.pick(&[Form::SyncFn, Form::SyncFn, Form::NewSpanSync, Form::ResultFn, Form::GuardFn, if TP { Form::SyncFn } else { Form::WhenFn }, Form::NewInfoSpanSync, Form::ExplicitIdFn, Form::SetupFn])
                 };
                 let exit = if c05 {
                     *ch.pick(&[Exit::Fall, Exit::Fall, Exit::Err, Exit::Panic])
